@@ -91,6 +91,36 @@ fn main() {
                 println!("{}", exec_line(&line));
             }
         }
+        Some("flushmax") => {
+            // upper bound encoding_rs gives for the output of the end-of-stream flush, per encoding (debug aid)
+            for l in ["utf-8", "ibm866", "iso-8859-2", "iso-8859-8-i", "windows-1252", "koi8-r", "macintosh", "x-mac-cyrillic", "gbk", "gb18030", "big5", "euc-jp", "iso-2022-jp", "shift_jis", "euc-kr", "utf-16be", "utf-16le", "x-user-defined", "replacement"] {
+                let e = encoding_rs::Encoding::for_label(l.as_bytes()).unwrap();
+                println!("{} {:?}", e.name(), e.new_decoder_without_bom_handling().max_utf8_buffer_length(0));
+            }
+        }
+        Some("dec") => {
+            // dec <label> <hex body> <read buffer size>: whole-body decoding vs the streaming TextReader (debug aid)
+            use std::io::Read;
+            let enc = encoding_rs::Encoding::for_label(args[2].as_bytes()).expect("label");
+            let body = script::unhex(&args[3]).expect("hex");
+            let k: usize = args[4].parse().expect("size");
+            let (whole, _) = enc.decode_without_bom_handling(&body);
+            let mut tr = attohttpc::TextReader::new(&body[..], enc);
+            let mut out = vec![];
+            let mut buf = vec![0u8; k];
+            loop {
+                match tr.read(&mut buf) {
+                    Ok(0) => break,
+                    Ok(n) => out.extend_from_slice(&buf[..n]),
+                    Err(e) => {
+                        println!("error {:?}", e);
+                        break;
+                    }
+                }
+            }
+            println!("whole    {}", script::hex(whole.as_bytes()));
+            println!("streamed {}", script::hex(&out));
+        }
         Some("gen") => {
             // gen <PROP> <seed> <tier> <outdir>
             let prop = args[2].as_str();
